@@ -575,12 +575,18 @@ def _oracle_curve(args):
                         ("pub-der", lambda: keys.VerifyingKey.from_der(eclib.spki(cv, x962)))):
             if ctx == "pub-der" and len(enc) == 2 * L:
                 continue                         # raw encoding does not exist inside DER
+            k2 = key
             try:
-                fn()
+                vk = fn()
                 lv, cls = "accept", ""
+                if c.cofactor() != 1 and ov == "reject":
+                    # name the input class: n*Q is the point of order 2 (x0, 0), which the library reads as infinity
+                    T = _aff_mul(cv, n, (int(vk.pubkey.point.x()), int(vk.pubkey.point.y())))
+                    if T is not None and T[1] == 0:
+                        k2 = "order-check-reads-y0-as-infinity"
             except Exception as e:
                 lv, cls = "reject", type(e).__name__
-            rec.ev("verdict", "%s %s: %s  [%s]" % (cv.name, ctx, what, enc.hex()), lv, ov, cls=cls, ctx=ctx, key=key)
+            rec.ev("verdict", "%s %s: %s  [%s]" % (cv.name, ctx, what, enc.hex()), lv, ov, cls=cls, ctx=ctx, key=k2)
     return cv.name, rec.evs, ncalls
 
 
@@ -680,6 +686,9 @@ def run(tier):
             ops = {}
             for e in evs[:-1]:
                 ops[e["op"]] = ops.get(e["op"], 0) + 1
+            unred = sum(1 for e in evs[:-1] if e["op"] != "pub" and e["out"][0] == 0 and not (0 <= e["out"][1] < TINY[nm][0] and 0 <= e["out"][2] < TINY[nm][0]))
+            if unred:
+                rep.cov.setdefault("observations", {})["%s: results with an unreduced affine coordinate (e.g. y of -P is returned as -y; compared as residues, not a violation)" % nm] = unred
             rep.add_trace("Trace_ECGroup %s (library on the tiny curve; expected values computed by TLC)" % nm, st, len(evs) - 1,
                           extra={"events_by_op": ops, "curve": dict(zip("P A B GX GY N H".split(), TINY[nm]))})
         rej, st = results["oracle"]
@@ -703,7 +712,8 @@ def run(tier):
         # samples
         t17 = tiny["T17"]
         for op in ("add", "mul", "muladd", "pub", "ecdh"):
-            rep.sample(next(e for e in t17 if e["op"] == op and e["out"] != [1, 0, 0]) if op != "ecdh" else next(e for e in t17 if e["op"] == op))
+            rep.sample(next(e for e in t17 if e["op"] == op and e["out"] != [1, 0, 0] and e["a"][2] > 1) if op not in ("ecdh", "pub")
+                       else next(e for e in t17 if e["op"] == op and (e["k"], e["m"]) == ((2, 3) if op == "ecdh" else (0, 0))))
         rep.sample({k: v for k, v in next(e for e in oevs if e["op"] == "eqinf" and e["zero"] == 0).items() if not k.startswith("_")}, limit=8)
         rep.sample({k: v for k, v in next(e for e in oevs if e["op"] == "verdict").items() if not k.startswith("_")}, limit=8)
     rep.cov["exhaustive"] = True
